@@ -106,15 +106,8 @@ CLAIMED = {
         text='8 theorems. Recount level: line and column of the image of a position are unchanged under LF -> CR LF. SCANNER + PARSER LEVEL (joint proof, relational WP between the run on a CR-free text and the run on its image under LF -> CR LF or LF -> CR, generic in the mode, independent fuels; index-valued state carried by invariants: same index shift for a possible simple key on the current line, adjacency equal on one side iff on the other): C14_crlf / C14_cr - for EVERY CR-free text the two substitutions give the same events (kind, scalar text with breaks as line feeds, style, anchor id, tag) with the same LINE and COLUMN in every span and the same end (PDone, or the same error site at the same line and column); no exception (panic and fuel are excluded by C01); C14_crlf_buffered / C14_cr_buffered: the same between buffered runs of any capacities >= 8, unconditionally (C10_pipeline_backends_equal). Error MESSAGES are sites in the model; the tie compares messages. Tie/oracle: every CR-free input of the C01 space parsed as is, with CRLF and with lone CR on two back-ends: identical events, scalar text, line:column of every marker, verdict and error message; model vs implementation on the CRLF image.',
         ref="DESIGN.md 5/C14", tech='Rocq proof (relational joint proof over the whole scanner + parser model: break style changes nothing but indices) + three-way comparison on implementation + differential correspondence'),
     "C17": dict(
-        text="Theorems C17_histories / C17_peek_is_next / C17_nothing_after_end: for EVERY deterministic core and EVERY peek/next history "
-             "the wrapper model (peek, next_event, next_event_impl) reports the results of plain iteration as specified, up to the first "
-             "error, and nothing after StreamEnd. Theorem C17_push_is_iteration: for EVERY list of iteration results that is a prefix of an "
-             "event sentence (C02 proves this of the parser) the recursive-descent model of Parser::load pushes exactly the iterator's "
-             "events and returns the iterator's error (or Ok after a whole sentence); it never panics (unreachable!/assert_eq!) and never "
-             "reports an error of its own. The extracted spec_run is the oracle for exhaustive short and random histories on the "
-             "implementation; push (multi and repeated single) vs iterator compared event-for-event on two back-ends. Repeated "
-             "load(multi=false) is covered by the correspondence only.",
-        ref="DESIGN.md 5/C17", tech="Rocq proof (wrapper over an abstract core, all histories) + extracted oracle + implementation-vs-implementation push/pull"),
+        text=open(os.path.join(V, "design", "C17_manifest.txt")).read().strip(),
+        ref="DESIGN.md 5/C17", tech="Rocq proof (wrapper over an abstract core, all histories; lazy scanner-parser coupling fused with the batch pipeline; Parser::load(multi) and repeated load(single) deliver the iteration) + extracted oracle and lazy model vs implementation call by call + implementation-vs-implementation push/pull"),
     "C02": dict(
         text="Theorem C02_run: for EVERY token list the pull-parser model delivers a prefix of the event grammar, a complete "
              "sentence when it reports no error, and never panics (invariant InvS by induction over steps). Tie: model parser "
